@@ -757,6 +757,23 @@ func (c *cctx) evalCall(e *ast.CallExpr) cval {
 		}
 		lo := c.math(c.eval(e.Args[1]), e.Args[1])
 		hi := c.math(c.eval(e.Args[2]), e.Args[2])
+		if lo.IsConst() && hi.IsConst() && len(e.Args) == 4 && new(big.Int).Sub(hi.Val, lo.Val).Cmp(big.NewInt(16)) <= 0 {
+			// a short constant range is expanded instead of quantified
+			var parts []*Term
+			for v := new(big.Int).Set(lo.Val); v.Cmp(hi.Val) < 0; v = new(big.Int).Add(v, big.NewInt(1)) {
+				n := *c
+				n.bound = map[string]*Term{}
+				for kk, vv := range c.bound {
+					n.bound[kk] = vv
+				}
+				n.bound[kid.Name] = x.ar.mathC(v)
+				parts = append(parts, x.cbool(e.Args[3], &n))
+			}
+			if name == "forall" {
+				return c.boolVal(And(parts...))
+			}
+			return c.boolVal(Or(parts...))
+		}
 		k := Var(fmt.Sprintf("%s!q%d", kid.Name, x.nextEpoch()), x.ar.mathSort())
 		n := *c
 		n.bound = map[string]*Term{}
@@ -1031,6 +1048,13 @@ func autoPatterns(body *Term, k *Term) [][]*Term {
 	var walk func(t *Term)
 	walk = func(t *Term) {
 		if t.Op == "forall" || t.Op == "exists" {
+			return
+		}
+		if t.Op == "app" && t.Fn != nil && t.Fn.Body != nil {
+			// a defined function is a macro for the solver: not a pattern
+			for _, a := range t.Args {
+				walk(a)
+			}
 			return
 		}
 		if (t.Op == "select" || t.Op == "app") && mentions(t) {
